@@ -802,8 +802,11 @@ func (l *ledgers) onSetIdentityAttempt(ni *nodeInc, err error) {
 func (l *ledgers) onIntruder(ni *nodeInc, firstServing bool, stage string, err error) {
 	run := l.run
 	run.reach("second_instance_attempt")
-	if ni.dead || ni.exited || !firstServing {
-		return // the first instance went away meanwhile: nothing to conclude
+	if ni.dead || ni.exited || !firstServing || ni.closing() {
+		// the first instance went away meanwhile, or is on its way out: Serve gives the lock back
+		// after its goroutines have finished and before it returns, so a second instance may
+		// legitimately get in while the first is still "running" in the harness's books
+		return
 	}
 	switch stage {
 	case "serving":
